@@ -17,7 +17,8 @@ from vv.verdict import Report
 import vivarium  # noqa
 from vivarium.core.engine import Engine
 from vivarium.core.process import Process, Step
-from vivarium.core.composer import Composer, Composite, MetaComposer
+from vivarium.core.composer import (
+    Composer, Composite, MetaComposer, get_composite_from_store)
 
 PARTS = ['processes', 'steps', 'flow', 'topology', 'state']
 
@@ -109,7 +110,7 @@ def run_history(actions):
         rec = dict(a)
         rec['exc'] = False
         try:
-            path = tuple(a['path'])
+            path = tuple(a.get('path', ()))
             if a['a'] == 'gen':
                 comp = (ComposerA() if a['t'] == 'A' else ComposerB()).generate(path=path)
                 objs.append(comp)
@@ -123,17 +124,37 @@ def run_history(actions):
                     topology={'q': {n: {'v': ('LQ.%s.topo' % n,)}}},
                     state={'q': {'st': {n: 'LQ.%s.state' % n}}},
                     path=path)
+            elif a['a'] == 'reload':
+                src = objs[a['i'] - 1]
+                store = src.generate_store()
+                if a.get('how') == 'ctor':
+                    comp = Composite(store=store)
+                else:
+                    comp = get_composite_from_store(store)
+                # the state of the loaded composite is the store's full state
+                # (declared variables only - values for undeclared paths are
+                # not kept by a store): projected away
+                comp['state'] = {}
+                objs.append(comp)
             else:
                 n = a['n']
                 objs[a['i'] - 1].merge(
                     processes={'agents': {n: TagProc({'tag': 'L.' + n})}},
-                    topology={'agents': {n: {'v': ('L.%s.topo' % n,)}}},
+                    steps={'agents': {n + 's': TagStep({'tag': 'LS.' + n})}},
+                    flow={'agents': {n + 's': []}},
+                    topology={'agents': {n: {'v': ('L.%s.topo' % n,)},
+                                         n + 's': {'v': ('LS.%s.topo' % n,)}}},
                     state={'agents': {'st': {n: 'L.%s.state' % n}}},
                     path=path)
         except Exception as e:
             rec['exc'] = True
             rec['exc_text'] = repr(e)[:200]
-        rec['objs'] = [project(c) for c in objs]
+        try:
+            rec['objs'] = [project(c) for c in objs]
+        except Exception as e:   # an object that is no composite any more
+            rec['exc'] = True
+            rec['exc_text'] = 'projection: ' + repr(e)[:200]
+            rec['objs'] = []
         recs.append(rec)
         if rec['exc']:
             break
@@ -164,10 +185,14 @@ def histories(tier, seed):
         for i, j in ((1, 2), (2, 1)):
             for p in ([], ['x']):
                 merges.append({'a': 'both', 'i': i, 'j': j, 'n': 'n1', 'path': p})
+        for i in (1, 2):
+            for how in ('fn', 'ctor'):
+                merges.append({'a': 'reload', 'i': i, 'how': how})
         pairs = list(itertools.product(merges, repeat=2))
         if tier == 'quick':
             rng.shuffle(pairs)
-            pairs = [pr for pr in pairs if pr[0]['a'] == 'both'][:6] + pairs[:10]
+            pairs = [pr for pr in pairs if pr[0]['a'] == 'both'][:6] + \
+                [pr for pr in pairs if pr[1]['a'] == 'reload'][:5] + pairs[:10]
         for m1, m2 in pairs:
             out.append([g1, g2, m1, m2])
     if tier == 'thorough':
@@ -192,7 +217,7 @@ def histories(tier, seed):
 def model_check(rep, tier, scratch):
     text = ('SPECIFICATION Spec\nCONSTANTS\n  MaxObjs = 3\n  MaxSteps = %d\n'
             'CHECK_DEADLOCK FALSE\nPROPERTIES\n  C16_OnlyTargetChanges\n  C16_MergeIsUnion\n'
-            '  C16_EmbeddedUnderPath\n' % (4 if tier == 'quick' else 5))
+            '  C16_EmbeddedUnderPath\n  C16_ReloadSame\n' % (4 if tier == 'quick' else 5))
     path = os.path.join(scratch, 'MC_Composite.cfg')
     with open(path, 'w') as f:
         f.write(text)
@@ -308,6 +333,76 @@ def overrides(rep):
             '_updater' in comp2['processes']['p1'].get_schema()['v']['x']:
         rep.violation({'kind': 'override', 'via': 'merge'},
                       'C16 merge(schema_override=...) reached the wrong process', {})
+    # overrides reach steps as well, through every site that accepts them
+    rep.evaluations += 1
+    want = {'_default': 0, '_emit': False}
+    cb = ComposerB({'_schema': {'s1': {'v': {'n': {'_emit': False}}}}}).generate()
+    if cb['steps']['s1'].get_schema()['v']['n'] != want:
+        rep.violation({'kind': 'override', 'via': 'composer', 'target': 'step'},
+                      'C16 a Composer _schema override for a step gives %r'
+                      % (cb['steps']['s1'].get_schema(),), {})
+    cb = ComposerB().generate()
+    cb.merge(schema_override={'s1': {'v': {'n': {'_emit': False}}}})
+    if cb['steps']['s1'].get_schema()['v']['n'] != want:
+        rep.violation({'kind': 'override', 'via': 'merge', 'target': 'step'},
+                      'C16 merge(schema_override=...) for a step gives %r'
+                      % (cb['steps']['s1'].get_schema(),), {})
+    cc = Composite({'processes': {'p': TagProc({'tag': 'p'})},
+                    'steps': {'s': TagStep({'tag': 's'})}, 'flow': {'s': []},
+                    'topology': {'p': {'v': ('a',)}, 's': {'v': ('a',)}},
+                    '_schema': {'s': {'v': {'n': {'_emit': False}}},
+                                'p': {'v': {'x': {'_default': 3}}}}})
+    if cc['steps']['s'].get_schema()['v']['n'] != want or \
+            cc['processes']['p'].get_schema()['v']['x'].get('_default') != 3:
+        rep.violation({'kind': 'override', 'via': 'composite'},
+                      'C16 Composite({... _schema}) overrides give %r / %r'
+                      % (cc['steps']['s'].get_schema(), cc['processes']['p'].get_schema()), {})
+    # a process and a step under one name cannot both be kept: rejected everywhere
+    rep.evaluations += 1
+
+    class Clash(Composer):
+        def generate_processes(self, config):
+            return {'a': TagProc({'tag': 'p'})}
+
+        def generate_steps(self, config):
+            return {'a': TagStep({'tag': 's'})}
+
+        def generate_topology(self, config):
+            return {'a': {'v': ('a',)}}
+    for via, fn in (
+            ('composer', lambda: Clash().generate()),
+            ('composite', lambda: Composite(processes={'a': TagProc({'tag': 'p'})},
+                                            steps={'a': TagStep({'tag': 's'})},
+                                            topology={'a': {'v': ('a',)}})),
+            ('merge', lambda: ComposerA().generate().merge(
+                steps={'p1': TagStep({'tag': 's'})}))):
+        try:
+            fn()
+            rep.violation({'kind': 'name-clash', 'via': via},
+                          'C16 a process and a step under the same name were accepted (%s)' % via,
+                          {})
+        except ValueError:
+            pass
+    # MetaComposer hands the configuration given to generate() on to every composer
+    rep.evaluations += 1
+
+    class Cfg(Composer):
+        defaults = {'tag': 'default', 'name': 'c'}
+
+        def generate_processes(self, config):
+            return {config['name']: TagProc({'tag': config['tag']})}
+
+        def generate_topology(self, config):
+            return {config['name']: {'v': ('a',)}}
+    mc = MetaComposer([Cfg({'name': 'c1'}), Cfg({'name': 'c2', 'tag': 'own'})])
+    got = project(mc.generate({'tag': 'given'}))['processes']
+    if got != [[['c1'], 'given'], [['c2'], 'given']]:
+        rep.violation({'kind': 'metacomposer', 'what': 'config'},
+                      'C16 MetaComposer.generate(config) built %r' % (got,), {})
+    got = project(mc.generate())['processes']
+    if got != [[['c1'], 'default'], [['c2'], 'own']]:
+        rep.violation({'kind': 'metacomposer', 'what': 'own-config'},
+                      'C16 MetaComposer.generate() built %r' % (got,), {})
     rep.evaluations += 1
     try:
         MetaComposer([ComposerA(), ComposerA()]).generate()
@@ -338,8 +433,8 @@ def check(prop, tier, seed):
     with tlc.Scratch() as scratch:
         model_check(rep, tier, scratch)
         validate(rep, histories(tier, seed), scratch)
-    entry_points(rep, tier)
-    overrides(rep)
+    rep.guard(entry_points, rep, tier, what='engine entry points')
+    rep.guard(overrides, rep, what='schema overrides / MetaComposer')
     return rep.finish()
 
 
